@@ -49,8 +49,9 @@ Del = namedtuple("Del", "cont key line")
 Return = namedtuple("Return", "value line")
 Raise = namedtuple("Raise", "exc line")
 Assert = namedtuple("Assert", "cond line")
+Jump = namedtuple("Jump", "kind line")           # continue / break
 
-LEAF = (Call, Construct, Draw, Store, SubStore, AttrStore, Mut, Del, Return, Raise, Assert)
+LEAF = (Call, Construct, Draw, Store, SubStore, AttrStore, Mut, Del, Return, Raise, Assert, Jump)
 
 
 # ------------------------------------------------------------------------------------------------
@@ -372,7 +373,8 @@ def assume(term, facts):
 def subterms(t):
     """All tuple subterms, pre-order."""
     if isinstance(t, tuple):
-        yield t
+        if t and isinstance(t[0], str):
+            yield t
         for x in t:
             if isinstance(x, tuple):
                 yield from subterms(x)
@@ -524,6 +526,7 @@ class Summariser:
         self.env = {}
         self.fields = fields if fields is not None else {}
         self.facts = []
+        self.loop_marks = []        # [(len(facts) at loop entry, [jump snapshots])]
         self.self_name = None
         args = fn.args
         names = [a.arg for a in args.posonlyargs + args.args]
@@ -615,6 +618,14 @@ class Summariser:
             if isinstance(st, ast.Raise):
                 exc = self.expr(st.exc, events) if st.exc is not None else ("const", None)
                 events.append(Raise(exc, st.lineno))
+                return events, True, None
+            if isinstance(st, (ast.Continue, ast.Break)):
+                kind = "continue" if isinstance(st, ast.Continue) else "break"
+                if not self.loop_marks:
+                    raise Unsupported(f"{kind} outside a loop at {self.module.path}:{st.lineno}")
+                events.append(Jump(kind, st.lineno))
+                self.loop_marks[-1][1].append((kind, tuple(self.facts[self.loop_marks[-1][0]:]),
+                                               dict(self.env), dict(self.fields)))
                 return events, True, None
             if isinstance(st, ast.With):
                 items = tuple(self.expr(item.context_expr, events) for item in st.items)
@@ -750,20 +761,33 @@ class Summariser:
             self.bind_target(st.target, ("elem", lid))
         old_loops = self.loops
         self.loops = self.loops + (lid,)
+        self.loop_marks.append((len(self.facts), []))
         ev, term, ret = self.block(st.body)
         self.loops = old_loops
-        if term:
+        _, jumps = self.loop_marks.pop()
+        if term and not jumps:
             raise Unsupported(f"unconditional return/raise inside loop at {self.module.path}:{st.lineno}")
         if _has_exit(ev):
-            raise Unsupported(f"return/raise inside loop at {self.module.path}:{st.lineno}")
-        for n in ast.walk(ast.Module(body=st.body, type_ignores=[])):
-            if isinstance(n, (ast.Break, ast.Continue)):
-                raise Unsupported(f"break/continue inside loop at {self.module.path}:{st.lineno}")
+            raise Unsupported(f"return inside loop at {self.module.path}:{st.lineno}")
+        end_env, end_fields = (None, None) if term else (self.env, self.fields)
+
+        def merged(getter, end):
+            v = end
+            for kind, facts, env_j, fields_j in reversed(jumps):
+                vj = getter(env_j, fields_j)
+                cond = facts[0] if len(facts) == 1 else ("and", facts)
+                v = vj if v is None else gate(cond, vj, v)
+            return v
         carried = {}
         for n in carried_n:
-            carried[n] = (env0[n], self.env.get(n))
+            carried[n] = (env0[n], merged(lambda e, f, n=n: e.get(n), None if term else end_env.get(n)))
         for f in fields:
-            carried["self." + f] = (f0.get(f, ("field0", f)), self.fields.get(f))
+            carried["self." + f] = (f0.get(f, ("field0", f)),
+                                    merged(lambda e, fl, f=f: fl.get(f, ("field0", f)),
+                                           None if term else end_fields.get(f)))
+        if term:
+            # every path of the body jumps: continue with the state of the last snapshot set
+            self.env, self.fields = dict(jumps[-1][2]), dict(jumps[-1][3])
         events.append(Loop(lid, it, "" if is_while else ast.unparse(st.target), ev, carried, st.lineno, False))
         for n in names:
             if n in carried_n:
